@@ -253,7 +253,7 @@ def validate_translation(ck, tr):
 PAIRS = [  # (spec, in the property's domain?)  expected verdicts come from the model mirror
     (["poly"], True), (["sin2"], True), (["const"], True),
     (["unnormalised", 1.01], True), (["unnormalised", 0.5], True), (["unnormalised", 1.0 + 5e-6], True),
-    (["both-scaled", 1.001], True), (["both-scaled", 2.0], True),
+    (["both-scaled", 1.001], True), (["both-scaled", 2.0], True), (["both-scaled", 1.0 + 5e-6], True), (["both-scaled", 1.0 - 4e-6], True),
     (["shifted", 3.0], True), (["shifted", -3.0], True), (["shifted", 1000.0], True),
     (["wrong-end", 5.0], True), (["wrong-end", 1e4], True),
     (["inconsistent"], True), (["inconsistent2"], True), (["negative"], True), (["decreasing-F"], True),
